@@ -81,6 +81,29 @@ def run(ctx):
         for kind, u in pairs:
             for (rtol, atol) in (TOLS if not ctx.quick else [(0.5, 0.0), ctx.rng.choice(TOLS[:3])]):
                 one_pair(ctx, kind, t, u, rtol, atol, reqs, meta)
+    # operands that represent ONE index type differently around one-element factors (`ptgen.unit_family`), holding the same values on
+    # the overlap of their patterns and the default elsewhere (equal), or differing in one stored cell
+    import warnings
+    for k in range(30 if ctx.quick else 500):
+        e, pe, f, pf = ptgen.unit_family(ctx.rng)
+        she, shf = tuple(a.numel() for a in pe), tuple(a.numel() for a in pf)
+        ne, nf = math.prod(she), math.prod(shf)
+        with warnings.catch_warnings():
+            warnings.simplefilter('ignore')
+            idx_u = PatternedTensor(torch.arange(1, nf + 1, dtype=torch.float64).reshape(shf), pf, (f,), 0.0).to_dense()
+            idx_t = PatternedTensor(torch.arange(1, ne + 1, dtype=torch.float64).reshape(she), pe, (e,), 0.0).to_dense()
+        both = (idx_u != 0) & (idx_t != 0)
+        dense = torch.where(both, torch.tensor([float(ctx.rng.choice([1, 2, 3])) for _ in range(idx_t.numel())], dtype=torch.float64), torch.zeros(()).double())
+        tp, up = torch.zeros(ne, dtype=torch.float64), torch.zeros(nf, dtype=torch.float64)
+        for cell in range(dense.numel()):
+            if both[cell]:
+                tp[int(idx_t[cell]) - 1] = dense[cell]; up[int(idx_u[cell]) - 1] = dense[cell]
+        t = PatternedTensor(tp.reshape(she), pe, (e,), 0.0)
+        u = PatternedTensor(up.reshape(shf), pf, (f,), 0.0)
+        one_pair(ctx, 'unit-family-same', t, u, 0.0, 0.0, reqs, meta)
+        if nf:
+            up2 = up.clone(); up2[ctx.rng.randrange(nf)] += 1.0
+            one_pair(ctx, 'unit-family-one-cell', t, PatternedTensor(up2.reshape(shf), pf, (f,), 0.0), 0.5, 0.0, reqs, meta)
     for (case, impl_eq, impl_ac), rep in zip(meta, ctx.driver.ask_many(reqs)):
         if isinstance(rep, Exception): raise rep
         me, se, ma, sa, wf = [x == 'T' for x in rep.split()]
